@@ -190,7 +190,10 @@ fn synth(seed: u64) -> Synth {
 
     let mut b = vec![];
     b.extend_from_slice(b"KyTea 0.4.0 B utf8\n");
-    b.push(1); b.push(0); put_u32(&mut b, 0);
+    // every 3rd model carries tag slots (the converter ignores them, but the reader has to walk over them: global tag
+    // lists and global tag models interleaved per slot, per-entry tag lists, per-entry tag models)
+    let n_tags: u32 = if seed % 3 == 1 { 1 + r.below(3) as u32 } else { 0 };
+    b.push(1); b.push(if n_tags > 0 { 1 } else { 0 }); put_u32(&mut b, n_tags);
     b.push(cw); b.push(3); b.push(tw); b.push(3); b.push(dict_n); b.push(1);
     b.extend_from_slice(&0.1f64.to_le_bytes()); b.push(1);
     b.extend_from_slice(CHAR_MAP.as_bytes()); b.push(0);
@@ -204,7 +207,32 @@ fn synth(seed: u64) -> Synth {
     put_i16s(&mut b, &[bias]);
     put_i16s(&mut b, &[]);
     put_i16s(&mut b, &[]);
-    put_dictionary(&mut b, n_dicts, &words, &mut |b, i| { put_string(b, &words[i]); b.push(masks[i]); });
+    // a small linear model without feature lookup (n_classes, solver, labels, bias flag, multiplier, lookup inactive), or none
+    let put_tag_model = |b: &mut Vec<u8>, present: bool| {
+        if present {
+            put_u32(b, 2); b.push(1);
+            b.extend_from_slice(&1i32.to_le_bytes()); b.extend_from_slice(&2i32.to_le_bytes());
+            b.push(1); b.extend_from_slice(&0.5f64.to_le_bytes()); b.push(0);
+        } else {
+            put_u32(b, 0);
+        }
+    };
+    // global tags and global models, slot by slot; slot k has k+1 tags and a model iff k is odd
+    for k in 0..n_tags as usize {
+        put_u32(&mut b, k as u32 + 1);
+        for j in 0..=k { put_string(&mut b, ["a", "ab", "あ", "漢x"][(j + k) % 4]); }
+        put_tag_model(&mut b, k % 2 == 1);
+    }
+    put_dictionary(&mut b, n_dicts, &words, &mut |b, i| {
+        put_string(b, &words[i]);
+        for k in 0..n_tags as usize {
+            let size = (i + k) % 3;
+            put_u32(b, size as u32);
+            for j in 0..size { put_string(b, ["b", "cd", "い"][(j + i) % 3]); b.push((j as u8) & 1); }
+        }
+        b.push(masks[i]);
+        for k in 0..n_tags as usize { put_tag_model(b, (i + k) % 2 == 0); }
+    });
     put_dictionary(&mut b, 0, &[], &mut |_, _| ());
 
     // what the statement says the converted model contains
